@@ -157,14 +157,22 @@ fn tables() -> Vec<VTable> {
 struct Src {
     data: Rc<RefCell<Vec<u8>>>,
     delivered: Rc<RefCell<usize>>,
+    /// bytes per read call; values >= 1000 additionally ask for an `Interrupted` answer on every
+    /// (chunk / 1000)-th call (the transient condition readers are expected to retry)
     chunk: usize,
+    calls: usize,
 }
 
 impl Read for Src {
     fn read(&mut self, buf: &mut [u8]) -> std::io::Result<usize> {
+        self.calls += 1;
+        let (every, chunk) = (self.chunk / 1000, self.chunk % 1000);
+        if every > 0 && self.calls % every == 0 {
+            return Err(std::io::Error::new(std::io::ErrorKind::Interrupted, "interrupted"));
+        }
         let d = self.data.borrow();
         let mut pos = self.delivered.borrow_mut();
-        let n = buf.len().min(self.chunk.max(1)).min(d.len() - *pos);
+        let n = buf.len().min(chunk.max(1)).min(d.len() - *pos);
         buf[..n].copy_from_slice(&d[*pos..*pos + n]);
         *pos += n;
         Ok(n)
@@ -482,7 +490,7 @@ fn run_history(src: &[u8], chunk: usize, phase: u32, ops: &[Op], tabs: &[VTable]
     let delivered = Rc::new(RefCell::new(0usize));
     let mut lock = Lock { data: data.clone(), delivered: delivered.clone(), p: 0, mismatch: None, consumed_ok: false, counts: vec![], phases: [0; 8], straddle: 0, sc: vec![] };
     let r = catch(|| {
-        let mut rd = H263Reader::from_source(Src { data, delivered, chunk });
+        let mut rd = H263Reader::from_source(Src { data, delivered, chunk, calls: 0 });
         if phase > 0 {
             let _ = lock.step(&Op::Skip(phase), &mut rd, tabs, 0);
         }
@@ -727,7 +735,7 @@ pub fn run(ctx: &Ctx) -> (Report, String) {
     if ctx.is_main() {
         let m = ctx.scale_pct;
         rep.require("operations_compared", if thorough { 300_000_000 } else { 15_000_000 } * m / 100);
-        for k in ["op:read:ok", "op:read:eof", "op:read:width-error", "op:read_signed:ok", "op:peek:ok", "op:skip:eof", "op:read_vlc:ok", "op:read_vlc:eof", "op:transaction:err", "op:transaction_union:none", "op:lookahead:ok", "op:commit:ok", "op:grow:ok", "op:start_code:found", "op:start_code:none", "op:start_code:eof", "op:start_code_in_error:found", "reads_straddling_end", "phase0", "phase1", "phase2", "phase3", "phase4", "phase5", "phase6", "phase7"] {
+        for k in ["op:read:ok", "op:read:eof", "op:read:width-error", "op:read_signed:ok", "op:peek:ok", "op:skip:eof", "op:read_vlc:ok", "op:read_vlc:eof", "op:transaction:err", "op:transaction_union:none", "op:lookahead:ok", "op:commit:ok", "op:grow:ok", "op:start_code:found", "op:start_code:none", "op:start_code:eof", "op:start_code_in_error:found", "reads_straddling_end", "histories_over_an_interrupting_source", "phase0", "phase1", "phase2", "phase3", "phase4", "phase5", "phase6", "phase7"] {
             rep.require(k, 100);
         }
     }
@@ -750,7 +758,7 @@ fn shard(ctx: &Ctx, s: usize, n_random: u64, thorough: bool, rep: &mut Report) {
         }
         for phase in 0..8u32 {
             for (ai, a) in alpha.iter().enumerate() {
-                let (lock, pan) = run_history(src, 1 + (si % 3), phase, std::slice::from_ref(a), &tabs);
+                let (lock, pan) = run_history(src, 1 + (si % 3) + if si % 5 == 4 { 2000 } else { 0 }, phase, std::slice::from_ref(a), &tabs);
                 absorb(rep, &lock, pan, src, &|| format!("phase={} {:?}", phase, a), &|| base().set("what", format!("exhaustive1 src={} phase={} op={}", si, phase, ai)));
                 rep.distinct_enumerated += 1;
                 rep.count("bounded_exhaustive_sequences");
@@ -759,7 +767,7 @@ fn shard(ctx: &Ctx, s: usize, n_random: u64, thorough: bool, rep: &mut Report) {
                 }
                 for (bi, b) in alpha.iter().enumerate() {
                     let ops = [a.clone(), b.clone()];
-                    let (lock, pan) = run_history(src, 1 + (si % 3), phase, &ops, &tabs);
+                    let (lock, pan) = run_history(src, 1 + (si % 3) + if si % 5 == 4 { 2000 } else { 0 }, phase, &ops, &tabs);
                     absorb(rep, &lock, pan, src, &|| format!("phase={} {:?}", phase, ops), &|| base().set("what", format!("exhaustive2 src={} phase={} ops={},{}", si, phase, ai, bi)));
                     rep.distinct_enumerated += 1;
                     rep.count("bounded_exhaustive_sequences");
@@ -777,7 +785,11 @@ fn shard(ctx: &Ctx, s: usize, n_random: u64, thorough: bool, rep: &mut Report) {
         let src = random_source(&mut rng, ctx.miri());
         let nops = 20 + rng.below(181) as usize;
         let ops: Vec<Op> = (0..nops).map(|_| random_op(&mut rng, 0, tabs.len(), true)).collect();
-        let chunk = 1 + rng.below(5) as usize;
+        let interrupts = if rng.chance(1, 4) { 1000 * (2 + rng.below(4) as usize) } else { 0 };
+        if interrupts > 0 {
+            rep.count("histories_over_an_interrupting_source");
+        }
+        let chunk = 1 + rng.below(5) as usize + interrupts;
         let phase = rng.below(8) as u32;
         let (lock, pan) = run_history(&src, chunk, phase, &ops, &tabs);
         let bad = lock.mismatch.is_some() || pan.is_some();
